@@ -5,7 +5,10 @@ explore(fn) re-runs fn along every feasible decision prefix (stateless DFS, solv
 
 Numeric forms of Sym:
   'g'  grid normal form  value = g/10^6 + o   (g: z3 Int term or int, o: exact Fraction)  -- everything the runtime keeps on the 1 us grid
-  'r'  generic real      value = r            (z3 Real term)
+  'n'  nanosecond form   value = n/10^9 + o   (n: z3 Int term)  -- "arbitrary" times and delays are quantified over the 1 ns grid, which
+                                               keeps every path condition in linear *integer* arithmetic (mixed Int/Real rounding
+                                               constraints time out in z3 and cvc5 alike); all rounding ties (x.5 us = 500 ns) are on that grid
+  'r'  generic real      value = r            (z3 Real term; only produced by non-integer scaling, not used by the async harnesses)
   'i'  integer           value = i            (z3 Int term)
 round(x, 6) is modelled as round-half-up to the 1 us grid: exact integer arithmetic in form 'g', a fresh Int with two linear side
 constraints in form 'r'.
@@ -18,6 +21,7 @@ from fractions import Fraction
 import z3
 
 MICRO = 10**6
+NANO = 10**9
 _cnt = itertools.count()
 
 
@@ -47,7 +51,7 @@ class Engine:
         self.trace = []
         self.pc = list(self.base)
         self.solver = z3.Solver()
-        self.solver.set("timeout", self.timeout_ms)
+        self.solver.set("timeout", min(self.timeout_ms, 3000))  # incremental attempts are cheap; a fresh solver gets the full budget
         for c in self.pc:
             self.solver.add(c)
 
@@ -55,6 +59,25 @@ class Engine:
         t0 = time.time()
         self.queries += 1
         r = self.solver.check(*extra)
+        if r == z3.unknown:
+            # z3's incremental arithmetic core occasionally gives up on mixed Int/Real queries that a fresh solver decides at once
+            s = z3.Solver()
+            s.set("timeout", self.timeout_ms)
+            for c in self.pc:
+                s.add(c)
+            for c in extra:
+                s.add(c)
+            self.queries += 1
+            r = s.check()
+            if r == z3.sat:
+                self._last_model = s.model()
+            # rebuild the incremental solver so that it does not stay in the degraded state
+            self.solver = z3.Solver()
+            self.solver.set("timeout", self.timeout_ms)
+            for c in self.pc:
+                self.solver.add(c)
+        elif r == z3.sat:
+            self._last_model = self.solver.model()
         self.solver_s += time.time() - t0
         return r
 
@@ -113,14 +136,14 @@ class Engine:
             if r == z3.unknown:
                 raise Inconclusive("unknown while concretising an integer")
             raise PathInfeasible()
-        v = self.solver.model().eval(term, model_completion=True).as_long()
+        v = self._last_model.eval(term, model_completion=True).as_long()
         for _ in range(64):
             r = self._check(term < v)
             if r == z3.unsat:
                 return v
             if r == z3.unknown:
                 raise Inconclusive("unknown while concretising an integer")
-            v = self.solver.model().eval(term, model_completion=True).as_long()
+            v = self._last_model.eval(term, model_completion=True).as_long()
         raise Inconclusive("integer concretisation did not converge")
 
     def concretize(self, term):
@@ -262,7 +285,10 @@ class Sym:
 
     @staticmethod
     def real(name=None, r=None):
-        return Sym("r", r=r if r is not None else z3.Real(name or f"r!{next(_cnt)}"))
+        """an 'arbitrary real' time/delay: quantified over the 1 ns grid (see module docstring)"""
+        if r is not None:
+            return Sym("r", r=r)
+        return Sym("n", z3.Int(name or f"n!{next(_cnt)}"), Fraction(0))
 
     @staticmethod
     def integer(name=None, i=None):
@@ -275,15 +301,27 @@ class Sym:
         if self.kind == "i":
             return z3.ToReal(self.g) if isinstance(self.g, z3.ExprRef) else z3.RealVal(self.g)
         g = z3.ToReal(self.g) if isinstance(self.g, z3.ExprRef) else z3.RealVal(self.g)
-        t = g / MICRO
+        t = g / (MICRO if self.kind == "g" else NANO)
         return t + z3.RealVal(self.o) if self.o != 0 else t
 
+    def ns(self):
+        """(n, o) with value = n/1e9 + o, for kinds g / n / i"""
+        if self.kind == "n":
+            return self.g, self.o
+        if self.kind == "g":
+            return self.g * 1000, self.o
+        if self.kind == "i":
+            return self.g * NANO, Fraction(0)
+        raise TypeError("no ns form for a generic real")
+
     def is_concrete(self):
-        return self.kind in ("g", "i") and not isinstance(self.g, z3.ExprRef)
+        return self.kind in ("g", "i", "n") and not isinstance(self.g, z3.ExprRef)
 
     def concrete_value(self):
         assert self.is_concrete()
-        return Fraction(self.g) if self.kind == "i" else Fraction(self.g, MICRO) + self.o
+        if self.kind == "i":
+            return Fraction(self.g)
+        return Fraction(self.g, MICRO if self.kind == "g" else NANO) + self.o
 
     # arithmetic -----------------------------------------------------------------------------------
     def _coerce(self, other):
@@ -307,6 +345,9 @@ class Sym:
             b = b.to_grid()
         if a.kind == "g" and b.kind == "g":
             return Sym("g", a.g + b.g, a.o + b.o)
+        if a.kind in ("g", "n") and b.kind in ("g", "n"):
+            (na, oa), (nb, ob) = a.ns(), b.ns()
+            return Sym("n", na + nb, oa + ob)
         return Sym("r", r=a.real_term() + b.real_term())
 
     __radd__ = __add__
@@ -319,8 +360,8 @@ class Sym:
     def __neg__(self):
         if self.kind == "i":
             return Sym("i", g=-self.g)
-        if self.kind == "g":
-            return Sym("g", -self.g, -self.o)
+        if self.kind in ("g", "n"):
+            return Sym(self.kind, -self.g, -self.o)
         return Sym("r", r=-self.r)
 
     def __sub__(self, other):
@@ -348,8 +389,8 @@ class Sym:
         f = _frac(other)
         if self.kind == "i" and f.denominator == 1:
             return Sym("i", g=self.g * int(f))
-        if self.kind == "g" and f.denominator == 1:
-            return Sym("g", self.g * int(f), self.o * f)
+        if self.kind in ("g", "n") and f.denominator == 1:
+            return Sym(self.kind, self.g * int(f), self.o * f)
         return Sym("r", r=self.real_term() * z3.RealVal(f))
 
     __rmul__ = __mul__
@@ -377,24 +418,31 @@ class Sym:
             other = other.concrete_value()
         d = _frac(other)
         assert d > 0
+        unit = MICRO
         if self.kind == "i":
             a_num, a_den, g = 0, 1, self.g * MICRO  # value = g/1e6
         elif self.kind == "g":
             g = self.g
             mo = self.o * MICRO
             a_num, a_den = mo.numerator, mo.denominator
+        elif self.kind == "n":
+            g, unit = self.g, NANO
+            mo = self.o * NANO
+            a_num, a_den = mo.numerator, mo.denominator
         else:
             k = z3.Int(f"fl!{next(_cnt)}")
             q = self.r / z3.RealVal(d)
             eng().assume(z3.And(z3.ToReal(k) <= q, q < z3.ToReal(k) + 1))
             return Sym("i", g=k)
-        md = d * MICRO
-        c, dd = md.numerator, md.denominator  # 1e6*d = c/dd
+        md = d * unit
+        c, dd = md.numerator, md.denominator  # unit*d = c/dd
         num = (g * a_den + a_num) * dd
         den = a_den * c
         if not isinstance(num, z3.ExprRef):
             return Sym("i", g=num // den)
-        return Sym("i", g=num / den)  # z3 Int division == floor for positive divisor
+        k = z3.Int(f"fl!{next(_cnt)}")  # floor as a fresh integer with two linear side constraints (keeps the path condition linear)
+        eng().assume(z3.And(den * k <= num, num < den * k + den))
+        return Sym("i", g=k)
 
     def __rfloordiv__(self, other):
         raise Inconclusive("floor division with a symbolic divisor")
@@ -407,10 +455,15 @@ class Sym:
         a, b = self, o
         if a.kind == "i" and b.kind == "i":
             l, r = a.g, b.g
-        elif a.kind in ("g", "i") and b.kind in ("g", "i"):
-            a, b = a.to_grid(), b.to_grid()
-            dg = a.g - b.g
-            rhs = (b.o - a.o) * MICRO
+        elif a.kind in ("g", "i", "n") and b.kind in ("g", "i", "n"):
+            if "n" in (a.kind, b.kind):
+                (na, oa), (nb, ob) = a.ns(), b.ns()
+                dg = na - nb
+                rhs = (ob - oa) * NANO
+            else:
+                a, b = a.to_grid(), b.to_grid()
+                dg = a.g - b.g
+                rhs = (b.o - a.o) * MICRO
             if not isinstance(dg, z3.ExprRef):
                 l, r = Fraction(dg), rhs
                 return {"lt": l < r, "le": l <= r, "gt": l > r, "ge": l >= r, "eq": l == r, "ne": l != r}[op]
@@ -453,7 +506,7 @@ class Sym:
             return f"Sym(r:{self.r})"
         if self.kind == "i":
             return f"Sym(i:{self.g})"
-        return f"Sym(g:{self.g}/1e6+{self.o})"
+        return f"Sym({self.kind}:{self.g}/{'1e6' if self.kind == 'g' else '1e9'}+{self.o})"
 
     def __float__(self):
         raise Inconclusive("float() of a symbolic value reached C code")
@@ -500,6 +553,14 @@ def sym_round(x, nd=None):
         return x
     if x.kind == "g":
         return Sym("g", x.g + math.floor(x.o * MICRO + Fraction(1, 2)), Fraction(0))
+    if x.kind == "n":
+        if not isinstance(x.g, z3.ExprRef):
+            return Sym("g", math.floor(Fraction(x.g, 1000) + x.o * MICRO + Fraction(1, 2)), Fraction(0))
+        k = z3.Int(f"rnd!{next(_cnt)}")  # 1000k <= n + o*1e9 + 500 < 1000k + 1000   (linear integer arithmetic)
+        off = x.o * NANO + 500
+        a, b = off.numerator, off.denominator
+        eng().assume(z3.And(1000 * b * k <= x.g * b + a, x.g * b + a < 1000 * b * k + 1000 * b))
+        return Sym("g", k, Fraction(0))
     k = z3.Int(f"rnd!{next(_cnt)}")
     q = x.r * MICRO + z3.RealVal(Fraction(1, 2))
     eng().assume(z3.And(z3.ToReal(k) <= q, q < z3.ToReal(k) + 1))
